@@ -1,7 +1,7 @@
 SPECIFICATION Spec
 CONSTANTS
   Kind = "sn"
-  Smp = "ref"
+  Smp = "trainonly"
   SumSamples = FALSE
   ExpSamples = FALSE
   OptImpl = "fixed"
@@ -9,14 +9,14 @@ CONSTANTS
   N = 2
   Chans = 1
   Temps = {"any"}
-  Acts = {"temp", "hard", "gumbel", "disable", "mode", "fwd", "alpha", "load", "summary", "export"}
-  Writes = {"copy", "data", "optim"}
+  Acts = {"temp", "hard", "mode", "fwd", "alpha", "load", "freeze"}
+  Writes = {"copy"}
   Ckpts = {"soft"}
   Moves = "gen"
   InitAlpha = "ctor"
-  AllowKF = FALSE
-  Grads = {TRUE, FALSE}
-  SelHows = {}
+  AllowKF = TRUE
+  Grads = {TRUE}
+  SelHows = {"freeze_attr", "unfreeze_attr"}
 INVARIANT TypeOK
 INVARIANT SampledIsProb
 INVARIANT OneHotAtArgmax
